@@ -840,6 +840,77 @@ func housekeeping(r *ev.Run) {
 	})
 }
 
+// stalledWaiters: some of the clients waiting for a code have stopped reading (their connections are synchronous
+// pipes, so the reply to them can never be written). The healthy ones are released by the matching request all the
+// same: each connection is served on its own.
+func stalledWaiters(r *ev.Run) {
+	for vi, code := range []byte{11, 13} {
+		c := r.Case("stalled-waiters", vi)
+		if c == nil || wedgedOnce || r.NumViolations() > 8 {
+			continue
+		}
+		r.Eval(1)
+		r.Guard(c, "waiters that stopped reading beside healthy ones", code, func() {
+			for round := 0; round < 3; round++ {
+				g, err := newRig(false)
+				if err != nil {
+					r.Count("stalled-waiters: rig could not be built", 1)
+					return
+				}
+				var pipes []net.Conn
+				for k := 0; k < 4; k++ {
+					a1, a2 := net.Pipe()
+					pipes = append(pipes, a1, a2)
+					go func() { defer func() { recover() }(); yubiagent.ServeAgent(g.srv, a2) }()
+					go a1.Write(wire.Frame([]byte{35, code})) // and never a Read
+				}
+				var healthy []*waiter
+				for k := 0; k < 2; k++ {
+					w, err := g.startWaiter(code)
+					if err != nil {
+						return
+					}
+					healthy = append(healthy, w)
+				}
+				closeAll := func() {
+					for _, p := range pipes {
+						p.Close()
+					}
+					for _, w := range healthy {
+						w.conn.Close()
+					}
+					g.close()
+				}
+				if n := waitParked(6, ev.OpTimeout()); n != 6 {
+					closeAll()
+					r.Count("stalled-waiters: not all six waiters registered (not judged)", 1)
+					return
+				}
+				go g.poke(code)
+				for _, w := range healthy {
+					select {
+					case e := <-w.done:
+						if e != nil {
+							closeAll()
+							r.Violation(c, "released-waiter-reports-error:stalled-waiters", e.Error(), code)
+							return
+						}
+					case <-time.After(ev.OpTimeout()):
+						r.Violation(c, "waiter-not-released:held-up-by-a-waiter-that-stopped-reading", fmt.Sprintf("round %d: four waiters on code %d stopped reading their connections; a matching request arrived; a healthy waiter on the same code is still waiting for its reply", round, code), code)
+						closeAll()
+						wedgedOnce = true
+						return
+					}
+				}
+				closeAll()
+				waitParked(0, 5*time.Second)
+			}
+			r.Count("healthy waiters released although other waiters on the code had stopped reading", 6)
+			r.Nontrivial(fmt.Sprintf("stalled-waiters:%d", code))
+		})
+	}
+}
+
 // worn: an agent that has already received a great many requests with the awaited code (an agent lives for days and
 // every ssh connection attempt sends a listing request). The number of earlier requests crosses the 8- and 16-bit
 // boundaries while waiters come and go: each waiter must ignore a non-matching request and be released by the next
@@ -1044,6 +1115,7 @@ func main() {
 		reusedConnection(r)
 		releaseWhileBusy(r)
 		backToBack(r)
+		stalledWaiters(r)
 		housekeeping(r)
 		cs := []string{}
 		_ = sort.Strings
